@@ -218,3 +218,82 @@ func c14CallBoundary(c *Ctx, r *Report) {
 	}
 	r.Floor("R14.12", "call boundaries with a block-exit result", n, 1)
 }
+
+// c14NoLiveMapWalk (R14.13): the body of a for-loop never runs in the middle
+// of a walk over the live entry list of a map.
+func c14NoLiveMapWalk(c *Ctx, r *Report) {
+	r.Rule("R14.13", "a loop body does not run inside a walk of a live map: in the interpreter no control-flow cycle contains both a step along a map's entry list (a load of MlrmapEntry.Next) and the execution of a statement block (StatementBlockNode.Execute, or a method of the same node that leads to one): the body may add entries to the map it is looping over, and a walk that sees them never ends when each visit adds one — the entries are listed before the loop starts (the reference: loop variables are bound to the map as it was before the loop)")
+	n := 0
+	execs := map[*ssa.Function]bool{}
+	// functions of pkg/dsl/cst that (transitively, within the package, depth 3) execute a statement block
+	var leads func(fn *ssa.Function, depth int, seen map[*ssa.Function]bool) bool
+	leads = func(fn *ssa.Function, depth int, seen map[*ssa.Function]bool) bool {
+		if fn == nil || fn.Blocks == nil || depth > 3 || seen[fn] {
+			return false
+		}
+		seen[fn] = true
+		for _, b := range fn.Blocks {
+			for _, in := range b.Instrs {
+				if call, ok := in.(*ssa.Call); ok {
+					cn := CalleeName(&call.Call)
+					if strings.HasSuffix(cn, "StatementBlockNode.Execute") || strings.HasSuffix(cn, "StatementBlockNode.ExecuteFrameless") {
+						return true
+					}
+					if callee := call.Call.StaticCallee(); callee != nil && callee.Pkg == fn.Pkg && leads(callee, depth+1, seen) {
+						return true
+					}
+				}
+			}
+		}
+		return false
+	}
+	for _, fn := range c.ModuleFunctions() {
+		if fn.Blocks == nil || fn.Pkg == nil || !strings.HasSuffix(fn.Pkg.Pkg.Path(), "/pkg/dsl/cst") {
+			continue
+		}
+		var nextBlocks, execBlocks []*ssa.BasicBlock
+		for _, b := range fn.Blocks {
+			for _, in := range b.Instrs {
+				switch x := in.(type) {
+				case *ssa.FieldAddr:
+					if _, name, ok := fieldAddrName(x); ok && name == "Next" && strings.HasSuffix(x.X.Type().String(), "mlrval.MlrmapEntry") {
+						nextBlocks = append(nextBlocks, b)
+					}
+				case *ssa.Call:
+					cn := CalleeName(&x.Call)
+					isExec := strings.HasSuffix(cn, "StatementBlockNode.Execute") || strings.HasSuffix(cn, "StatementBlockNode.ExecuteFrameless")
+					if !isExec {
+						if callee := x.Call.StaticCallee(); callee != nil && callee.Pkg == fn.Pkg {
+							if _, done := execs[callee]; !done {
+								execs[callee] = leads(callee, 0, map[*ssa.Function]bool{})
+							}
+							isExec = execs[callee]
+						}
+					}
+					if isExec {
+						execBlocks = append(execBlocks, b)
+					}
+				}
+			}
+		}
+		if len(execBlocks) == 0 {
+			continue
+		}
+		n++
+		bad := ""
+		for _, nb := range nextBlocks {
+			for _, eb := range execBlocks {
+				if (nb == eb && blockReachesSelf(nb)) || (blockReaches(nb, eb) && blockReaches(eb, nb)) {
+					bad = c.Rel(eb.Instrs[0].Pos())
+				}
+			}
+		}
+		if len(nextBlocks) == 0 {
+			continue
+		}
+		r.Check(bad == "", "R14.13", SSAName(fn), c.Rel(fn.Pos()), "no statement block runs inside the walk",
+			fmt.Sprintf("%s steps along a map's entry list (pe = pe.Next) in the same cycle in which it executes a statement block (near %s): entries the block adds to that map are visited too, and the loop need not end", SSAName(fn), bad))
+	}
+	r.OK("R14.13", "interpreter functions that execute statement blocks", "", fmt.Sprintf("%d functions examined", n))
+	r.Floor("R14.13", "interpreter functions that execute statement blocks", n, 10)
+}
